@@ -388,7 +388,8 @@ func (s *RocksDBStore) GetRange(table storage.Table, start, end []byte) (storage
 func (s *RocksDBStore) GetLast(table storage.Table) (*storage.KVPair, error) {
 	it := s.db.NewIteratorCF(s.ro, s.cfHandles[table])
 	defer it.Close()
-	it.SeekForPrev([]byte{0xff, 0xff, 0xff, 0xff, 0xff, 0xff, 0xff, 0xff, 0xff, 0xff})
+	// the greatest key of the column family, whatever its length
+	it.SeekToLast()
 	if it.Valid() {
 		result := new(storage.KVPair)
 		keySlice := it.Key()
